@@ -124,7 +124,8 @@ pub fn gen(rng: &mut Rng) -> ConcCase {
         if c.cfg.sink == SinkKind::Sim && rng.chance(1, 3) {
             // a sink of another temperament: shortens and interrupts writes (never fails)
             let n = rng.range(2, 9) as usize;
-            c.faults.pattern = (0..n).map(|_| *rng.pick(&[0u8, 1, 2, 3, 4])).collect();
+            // no one-byte-at-a-time writes here: every write call is a baton round trip between threads
+            c.faults.pattern = (0..n).map(|_| *rng.pick(&[0u8, 2, 2, 3, 4])).collect();
         }
         ctime_now.push(rng.chance(1, 5));
         scripts.push(c);
